@@ -96,7 +96,7 @@ def main():
     from vf.props import c05
     traces = []
     for ti in (0, 4, 12):
-        traces += c05.one_run((ti, (3, 1, -2, 1), (1, 0, 0), 90, 7)).traces
+        traces += c05.one_run((ti, (3, 1, -2, 1), (1, 0, 0), 90, 7, None)).traces
 
     def v1(ts):
         ts[1]["errs"][-1] = ts[1]["tol"] + 1
